@@ -90,10 +90,13 @@ def normpath(urlpath, drop_consecutive_slashes=True):
     resolved = []
 
     for segment in segments:
-        if segment in ("../", ".."):
+        # NOTE: an escaped dot is still a dot
+        unescaped = segment.replace("%2E", ".").replace("%2e", ".")
+
+        if unescaped in ("../", ".."):
             if resolved[1:]:
                 resolved.pop()
-        elif segment not in ("./", "."):
+        elif unescaped not in ("./", "."):
             resolved.append(segment)
 
     return "".join(resolved).rstrip("/")
